@@ -1380,7 +1380,23 @@ def run(rep: Report, ctx: Any) -> str:
     # ---- R03.2 ---------------------------------------------------------------------------------------------------------
     defs = {"headers": ("header_params", "headers: dict[str, Any] = {}"), "cookies": ("cookie_params", "cookies = {}"),
             "params": ("query_params", "params: dict[str, Any] = {}")}
-    top = list(tplq.frags(et.tree.body))
+    own_macros = {m.name: m for m in et.tree.find_all(nodes.Macro)}
+
+    def _with_own_macros(frs: list[Any], depth: int = 2) -> Iterator[Any]:
+        """the fragments, and for every call of a macro of the module itself what that macro writes there: under the guards and in
+        the loops of the call site as well as its own (the tests a macro makes of its parameters are atoms like any other)"""
+        for f in frs:
+            yield f
+            if f.kind != "expr" or not depth:
+                continue
+            for c in [f.node, *f.node.find_all(nodes.Call)]:
+                m = own_macros.get(c.node.name) if isinstance(c, nodes.Call) and isinstance(c.node, nodes.Name) else None
+                if m is not None:
+                    inner = [tplq.Frag(k.kind, k.text, f.line, f.guards + k.guards, f.guard_nodes + k.guard_nodes, f.loops + k.loops, k.node)
+                             for k in tplq.frags(m.body)]
+                    yield from _with_own_macros(inner, depth - 1)
+
+    top = list(_with_own_macros(list(tplq.frags(et.tree.body))))
     gk_start = next((f.line for f in top if f.kind == "data" and "def _get_kwargs(" in f.text), None)
     gk_end = next((f.line for f in top if f.kind == "data" and "def _parse_response(" in f.text), None)
     rep.require(gk_start is not None and gk_end is not None, "_get_kwargs region")
